@@ -1051,8 +1051,13 @@ func (c *Conn) handleBdat(arg string) {
 
 	c.lineLimitReader.setLimit(0)
 
-	chunk := io.LimitReader(c.text.R, int64(size))
+	chunk := &io.LimitedReader{R: c.text.R, N: int64(size)}
 	_, err = io.Copy(c.bdatPipe, chunk)
+	if err == nil && chunk.N > 0 {
+		// io.Copy does not report EOF: the connection ended inside the
+		// chunk, the message is incomplete.
+		err = io.ErrUnexpectedEOF
+	}
 	if err != nil {
 		// Backend might return an error early using CloseWithError without consuming
 		// the whole chunk.
